@@ -100,3 +100,42 @@ Proof.
   intros H Be Bs; injection H as <-.
   apply (spec_offline_accepted e st key sg dt r Be Bs); lia.
 Qed.
+
+(* ---- C19: NewKeyCertificateWithTypes agrees with the from-bytes entry point ---- *)
+Theorem keycert_with_types_agrees s c kc : new_key_certificate_with_types s c = Ok kc ->
+  0 <= s < 65536 -> 0 <= c < 65536 ->
+  kc_signing_type kc = s /\ kc_crypto_type kc = c /\
+  keycert_bytes kc = Ok (spec_keycert (Z.to_N s) (Z.to_N c) []) /\
+  exists k', new_key_certificate (spec_keycert (Z.to_N s) (Z.to_N c) []) = Ok (k', []) /\
+             keycert_bytes k' = keycert_bytes kc /\ kc_signing_type k' = s /\ kc_crypto_type k' = c.
+Proof.
+  unfold new_key_certificate_with_types.
+  destruct (negb (kc_valid_signing_type s)); [discriminate|]. destruct (negb (kc_valid_crypto_type c)); [discriminate|].
+  destruct (new_certificate_with_type c_certificate_CERT_KEY (key_type_payload s c)) as [ce| |] eqn:NC; cbn [rbind]; try discriminate.
+  intros KF Bs Bc.
+  assert (PL : key_type_payload s c = u16 (Z.to_N s) ++ u16 (Z.to_N c)).
+  { unfold key_type_payload, u16. rewrite !Z.mod_small by lia. reflexivity. }
+  destruct (spec_keycert_accepted (Z.to_N s) (Z.to_N c) [] [] ltac:(lia) ltac:(lia) ltac:(cbn; lia)) as [k' [NK [TS [TC KB]]]].
+  rewrite app_nil_r in NK.
+  (* the constructed certificate is the one the parser builds from the same bytes *)
+  assert (CE : ce = mkCert [5%N] (be_encode 2 4) (u16 (Z.to_N s) ++ u16 (Z.to_N c))).
+  { revert NC. unfold new_certificate_with_type. rewrite PL.
+    destruct (negb (cert_type_valid c_certificate_CERT_KEY)); [discriminate|].
+    assert (L4 : Z.of_nat (length (u16 (Z.to_N s) ++ u16 (Z.to_N c))) = 4) by (unfold u16; rewrite app_length, !be_encode_length; reflexivity).
+    rewrite L4. change (4 >? c_certificate_CERT_MAX_PAYLOAD_SIZE) with false. cbv iota.
+    change (c_certificate_CERT_KEY =? c_certificate_CERT_NULL) with false. change (c_certificate_CERT_KEY =? c_certificate_CERT_HIDDEN) with false.
+    change (c_certificate_CERT_KEY =? c_certificate_CERT_SIGNED) with false. cbn [andb].
+    change (new_integer_from_int 4 c_certificate_CERT_LENGTH_FIELD_SIZE) with (Ok (be_encode 2 4)). cbn [rbind].
+    intros H; injection H as <-. reflexivity. }
+  assert (K' : k' = kc).
+  { revert NK. unfold new_key_certificate, spec_keycert, spec_cert, u8, nlen. rewrite app_nil_r.
+    assert (RC : read_certificate ([5%N] ++ u16 (N.of_nat (length (u16 (Z.to_N s) ++ u16 (Z.to_N c)))) ++ u16 (Z.to_N s) ++ u16 (Z.to_N c)) = Ok (ce, [])).
+    { rewrite CE. unfold u16. rewrite app_length, !be_encode_length. change (N.of_nat (2 + 2)) with 4%N.
+      set (p := be_encode 2 (Z.to_N s) ++ be_encode 2 (Z.to_N c)).
+      assert (Lp : length p = 4%nat) by (unfold p; rewrite app_length, !be_encode_length; reflexivity).
+      destruct p as [|p0 [|p1 [|p2 [|p3 [|]]]]]; cbn [length] in Lp; try discriminate.
+      vm_compute. reflexivity. }
+    rewrite RC. cbn [rbind fst snd]. rewrite KF. cbn [rbind]. intros H; injection H as <-. reflexivity. }
+  subst k'. split; [exact TS' || (rewrite TS; lia)|]. split; [rewrite TC; lia|]. split; [exact KB|].
+  exists kc. split; [exact NK|]. split; [reflexivity|]. split; [rewrite TS; lia|rewrite TC; lia].
+Qed.
